@@ -461,10 +461,14 @@ structure LayoutFacts (w : World) (L : Layout) : Prop where
   files : L.filesLBA = L.jolietLBA + (dirSectors L.items true).sum
   run : ∃ e, runOk w 0 (allFiles L.items) e ∧ L.volumeSize = L.filesLBA + e
   vol : L.volSectors = L.volumeSize + L.padSectors
+  fits : L.volumeSize + 2 * Gen.fs_basePadSectors ≤ maxSector
+  pad : L.padSectors = padSectorsFor L.volumeSize
 
 theorem layoutOf_facts (w : World) (root : Path) (ps3 : Bool) (L : Layout) (h : layoutOf w root ps3 = some L) :
     LayoutFacts w L := by
-  unfold layoutOf at h
+  have hfit := (layoutOf_some h).2
+  have h := (layoutOf_some h).1
+  unfold layoutRaw at h
   split at h
   · split at h
     · cases h
@@ -474,7 +478,7 @@ theorem layoutOf_facts (w : World) (root : Path) (ps3 : Bool) (L : Layout) (h : 
       · rename_i items fsec hscan
         cases h
         exact ⟨gameCodeOf_len w root ps3 gc hgc, rfl, rfl, rfl, rfl, rfl,
-          ⟨fsec, scan_ok w _ _ [] 0 items fsec rfl hscan, rfl⟩, rfl⟩
+          ⟨fsec, scan_ok w _ _ [] 0 items fsec rfl hscan, rfl⟩, rfl, hfit, rfl⟩
   · cases h
 
 theorem metaBytes_length (w : World) (L : Layout) (F : LayoutFacts w L) (ps3 : Bool) (clk : Clock) (filler : Bytes) :
